@@ -4,8 +4,11 @@
    Models cnfgen/utils/opb.py  to_opb_file(formula, out, export_header, export_varnames)
    as reached from CNFio.to_opb / OPBio.to_opb / to_file(fileformat='opb'):
      first line  "* #variable= n #constraint= m"
-     header      "* field: value" per header field (through encode('ascii','replace')), then "*"
-     names       "* varname x<i> <label>" numbered from 1, then "*"
+     header      "* field: value" per header field (through _within_comment and
+                 encode('ascii','replace')), then "*"
+     names       "* varname x<i> <label>" numbered from 1 (through _within_comment), then "*"
+                 _within_comment: "\r\n" and "\r" become "\n", every "\n" is followed by "* "
+                 (print_opb_as_found: the writer before commit 7278321, without it)
      CNF object  one line per clause:      "+1 x3 +1 ~x5 >= 1"
      OPB object  one line per constraint:  "{:+} x<l> " / "{:+} ~x<l> " per term, then
                  ">=" when the stored operator is '>=' and "=" otherwise, then the degree
@@ -46,22 +49,49 @@ Definition constraint_line (c : pbc) : text :=
 
 Definition opb_spec_line (n m : Z) : text :=
   lit "* #variable= " ++ print_Z n ++ lit " #constraint= " ++ print_Z m.
-Definition opb_header_line (fv : text * text) : text :=
-  ascii_replace (lit "* " ++ fst fv ++ lit ": " ++ snd fv).
-Fixpoint opb_varname_lines (i : Z) (names : list text) : list text :=
+(* the writer as it is now (after the repair of D4, commit 7278321): every header
+   field and variable name goes through _within_comment(text, "* ")
+   (Dimacs.within_comment); an ENTRY is what one write(... + "\n") call writes,
+   without that final "\n", and may contain line breaks, each followed by "* " *)
+Definition opb_header_entry (fv : text * text) : text :=
+  ascii_replace (within_comment (lit "* ") (lit "* " ++ fst fv ++ lit ": " ++ snd fv)).
+Fixpoint opb_varname_entries (i : Z) (names : list text) : list text :=
   match names with
   | [] => []
-  | nm :: r => (lit "* varname x" ++ print_Z i ++ [SP] ++ nm) :: opb_varname_lines (i + 1) r
+  | nm :: r => within_comment (lit "* ") (lit "* varname x" ++ print_Z i ++ [SP] ++ nm)
+               :: opb_varname_entries (i + 1) r
   end.
-Definition opb_comment_lines (h : option header) (names : option (list text)) : list text :=
-  (match h with Some h => map opb_header_line h ++ [lit "*"] | None => [] end) ++
-  (match names with Some ns => opb_varname_lines 1 ns ++ [lit "*"] | None => [] end).
+Definition opb_comment_entries (h : option header) (names : option (list text)) : list text :=
+  (match h with Some h => map opb_header_entry h ++ [lit "*"] | None => [] end) ++
+  (match names with Some ns => opb_varname_entries 1 ns ++ [lit "*"] | None => [] end).
 
-Definition opb_lines (h : option header) (names : option (list text)) (f : formula) : list text :=
-  opb_spec_line (numvar f) (len (constraints f)) :: opb_comment_lines h names ++
+Definition opb_entries (h : option header) (names : option (list text)) (f : formula) : list text :=
+  opb_spec_line (numvar f) (len (constraints f)) :: opb_comment_entries h names ++
   map constraint_line (constraints f).
 Definition print_opb (h : option header) (names : option (list text)) (f : formula) : text :=
-  unlines (opb_lines h names f).
+  unlines (opb_entries h names f).
+
+(* the lines of the comment part, as a reader of the text finds them *)
+Definition opb_comment_lines (h : option header) (names : option (list text)) : list text :=
+  split_lines (unlines (opb_comment_entries h names)).
+
+(* the writer as it was found (before 7278321): fields copied verbatim *)
+Definition opb_header_line_as_found (fv : text * text) : text :=
+  ascii_replace (lit "* " ++ fst fv ++ lit ": " ++ snd fv).
+Fixpoint opb_varname_lines_as_found (i : Z) (names : list text) : list text :=
+  match names with
+  | [] => []
+  | nm :: r => (lit "* varname x" ++ print_Z i ++ [SP] ++ nm) :: opb_varname_lines_as_found (i + 1) r
+  end.
+Definition opb_comment_lines_as_found (h : option header) (names : option (list text)) : list text :=
+  (match h with Some h => map opb_header_line_as_found h ++ [lit "*"] | None => [] end) ++
+  (match names with Some ns => opb_varname_lines_as_found 1 ns ++ [lit "*"] | None => [] end).
+
+Definition opb_lines_as_found (h : option header) (names : option (list text)) (f : formula) : list text :=
+  opb_spec_line (numvar f) (len (constraints f)) :: opb_comment_lines_as_found h names ++
+  map constraint_line (constraints f).
+Definition print_opb_as_found (h : option header) (names : option (list text)) (f : formula) : text :=
+  unlines (opb_lines_as_found h names f).
 
 (* ---- independent reader ---- *)
 Inductive opb_err :=
